@@ -159,7 +159,7 @@ func (historyEngine) Gen(r *Rand, tier string) any {
 		op := HistOp{}
 		op.Entry = PickStr(r, []string{"LoadString", "LoadString", "LoadStringContext", "LoadStringContext", "Load", "LoadContext",
 			"Eval", "EvalContext", "EvalSExpr", "SpecialOpCall", "LoadProgram", "LoadProgramContext", "FunCall", "FunCallContext", "MacroCall",
-			"FunCallHostPanic", "EmptyLoad"})
+			"FunCallHostPanic", "EmptyLoad", "LoadFile", "LoadFileContext", "LoadLocation", "LoadLocationContext"})
 		if (op.Entry == "FunCall" || op.Entry == "FunCallContext") && len(h.funs) == 0 {
 			op.Entry = "LoadStringContext"
 		}
@@ -255,7 +255,7 @@ func (historyEngine) Gen(r *Rand, tier string) any {
 			op.CancelAt = int64(r.Range(1, 160))
 			if !strings.HasSuffix(op.Entry, "Context") {
 				op.Entry = map[string]string{"LoadString": "LoadStringContext", "Load": "LoadContext", "Eval": "EvalContext",
-					"EvalSExpr": "EvalContext", "SpecialOpCall": "EvalContext", "LoadProgram": "LoadProgramContext",
+					"EvalSExpr": "EvalContext", "SpecialOpCall": "EvalContext", "LoadProgram": "LoadProgramContext", "LoadFile": "LoadFileContext", "LoadLocation": "LoadLocationContext",
 					"FunCall": "FunCallContext", "MacroCall": "LoadStringContext"}[op.Entry]
 			}
 		case 3:
@@ -283,7 +283,7 @@ func (historyEngine) Gen(r *Rand, tier string) any {
 		if strings.HasSuffix(op.Entry, "Context") && r.Chance(2, 3) {
 			op.CancelAfter = true
 		}
-		if op.Entry == "Load" || op.Entry == "LoadContext" {
+		if op.Entry == "Load" || op.Entry == "LoadContext" || op.Entry == "LoadLocation" || op.Entry == "LoadLocationContext" {
 			op.Chunk = r.Pick([]int{1, 1, 1}) * r.Range(1, 9)
 			if r.Chance(1, 6) {
 				op.ReadFailAt = r.Range(1, 200)
@@ -320,6 +320,13 @@ func histFaultsFrom(r *Rand, n int, avail []int) []FaultSpec {
 		fs = append(fs, f)
 	}
 	return fs
+}
+
+// histLib is a source library that serves one operation's source under any name.
+type histLib struct{ src string }
+
+func (l histLib) LoadSource(ctx lisp.SourceContext, loc string) (string, string, []byte, error) {
+	return "op.lisp", loc, []byte(l.src), nil
 }
 
 // chunkReader delivers src in chunks of n bytes and optionally fails at a byte
@@ -515,6 +522,21 @@ func (historyEngine) Run(ci any, st *Stats) *Violation {
 			case "LoadContext":
 				rd = &chunkReader{src: []byte(src), chunk: op.Chunk, failAt: op.ReadFailAt}
 				return R.Env.LoadContext(ctx, "op", rd)
+			case "LoadFile", "LoadFileContext":
+				// through the runtime's source library (an in-memory one that
+				// serves exactly this operation's source)
+				R.RT.Library = histLib{src: src}
+				defer func() { R.RT.Library = nil }()
+				if op.Entry == "LoadFile" {
+					return R.Env.LoadFile("dir/op.lisp")
+				}
+				return R.Env.LoadFileContext(ctx, "dir/op.lisp")
+			case "LoadLocation":
+				rd = &chunkReader{src: []byte(src), chunk: op.Chunk, failAt: op.ReadFailAt}
+				return R.Env.LoadLocation("op.lisp", "dir/op.lisp", rd)
+			case "LoadLocationContext":
+				rd = &chunkReader{src: []byte(src), chunk: op.Chunk, failAt: op.ReadFailAt}
+				return R.Env.LoadLocationContext(ctx, "op.lisp", "dir/op.lisp", rd)
 			case "LoadProgram", "LoadProgramContext":
 				p, err := lisp.ReadProgram(R.RT.Reader, "op", strings.NewReader(src))
 				if err != nil {
